@@ -156,6 +156,16 @@ func c08Input(i int64, tier string, seed uint64, seeds []string, nEx1, nEx2 int6
 		ps := []string{"", "$x", "$x,$y"}[np]
 		return "function(" + ps + ")<" + sb.String() + ">{1}", "signature-soup"
 	default: // single (or double) edit of a seed
+		if i%40 == 5 {
+			// deep nesting: one prefix (and its closer) repeated 30..150 times
+			// around an operand - the work of Compile stays proportional to
+			// the length of the text
+			nest := [][2]string{{"-", ""}, {"(", ")"}, {"[", "]"}, {"-(", ")"}, {"$f(", ")"}, {"a.", ""}, {"a[", "]"}, {"{\"a\":", "}"}, {"- ", ""}, {"-[", "]"},
+				{"function(){", "}"}, {"a~>$f(", ")"}, {"-a.(", ")"}, {"(-", ")"}, {"1+", ""}, {"-$f(", ")"}, {"a ? ", " : 0"}, {"-(a;", ")"}, {"|a|", "|"}, {"a^(", ")"}}[r.Intn(20)]
+			k := r.Range(30, 150)
+			operand := r.Pick("a", "$x", "1", "\"s\"", "(a)", "a.b", "-a", "")
+			return strings.Repeat(nest[0], k) + operand + strings.Repeat(nest[1], k), "deep-nesting"
+		}
 		s := seeds[r.Intn(len(seeds))]
 		if r.Intn(6) == 0 {
 			return s, "seed-unchanged"
